@@ -115,6 +115,34 @@ var specC06 = reg(&checkSpec{
 	},
 })
 
+var specC09 = reg(&checkSpec{
+	prop: "C09", profiles: []string{"snap", "snap", "snapmember", "chaos"},
+	deciding: []string{"fsm-agreement", "snapshot-content", "restart", "converge", "no-crash", "log-read"},
+	closing:  true,
+	rule:     "non-trivial: a compaction removed >=1 segment or a snapshot was installed on another node, and the case ended with the closing phase (heal, restart, convergence check); distinct by trace hash",
+	nontrivial: func(c *cluster) bool {
+		return (c.stats.has("compaction") || c.stats.has("wire-install-ok")) && c.stats.has("closing")
+	},
+})
+
+var specC10 = reg(&checkSpec{
+	prop: "C10", profiles: []string{"crash", "crash", "snap", "member"},
+	deciding: []string{"restart", "restart-consistent", "term-monotonic", "vote-durable", "converge", "leader-unique", "leader-complete", "commit-stable", "log-matching", "fsm-agreement", "no-crash"},
+	closing:  true,
+	rule:     "non-trivial: a node was killed at a hook point strictly inside a storage-mutating sequence and later restarted from that image; distinct by trace hash",
+	nontrivial: func(c *cluster) bool { return c.stats.has("crashed-at-hook") && c.stats.has("restarted") },
+})
+
+var specC12 = reg(&checkSpec{
+	prop: "C12", profiles: []string{"snapmember", "snapmember", "snap"},
+	deciding: []string{"snapshot-label", "info-config"},
+	rule:     "non-trivial: a snapshot reached a disk whose index lies at or after a configuration change (configuration in force differs from the bootstrap one); distinct by trace hash",
+	nontrivial: func(c *cluster) bool { return c.stats.has("snapshot-after-config-change") },
+})
+
+func TestVerif_C09(t *testing.T) { corpusReplay(t, specC09); runSpec(t, specC09) }
+func TestVerif_C10(t *testing.T) { corpusReplay(t, specC10); runSpec(t, specC10) }
+func TestVerif_C12(t *testing.T) { corpusReplay(t, specC12); runSpec(t, specC12) }
 func TestVerif_C06(t *testing.T) { corpusReplay(t, specC06); runSpec(t, specC06) }
 func TestVerif_C05v(t *testing.T) { corpusReplay(t, specC05v); runSpec(t, specC05v) }
 func TestVerif_C07(t *testing.T)  { corpusReplay(t, specC07); runSpec(t, specC07) }
